@@ -24,9 +24,36 @@ class ProdCase:
         self.anchor: dict[int, int] = {}   # first reference instant per producer (anchors `interval(None, ..)`)
         self.meta: dict = {}
 
+    def time_nodes(self) -> list[tuple]:
+        out = []
+
+        def walk(p):
+            k = p[0]
+            if k == 'time':
+                out.append((p[1], p[2], p[3]))
+            subs = p[2] if k == 'group' else [p[3]] if k == 'offset' else [p[5]] if k in ('earliest', 'latest') else \
+                [p[4]] if k == 'jitter' else []
+            if k in ('earliest', 'latest'):
+                out.append((p[1], p[2], p[3]))
+            for s in subs:
+                walk(s)
+        for sp in self.specs.values():
+            walk(sp)
+        return sorted(set(out))
+
+    def regular_lines(self) -> list[str]:
+        """executable check of the `TimeRegular` hypothesis of the C05/C06 theorems on the dates this case touches"""
+        if not self.queries:
+            return []
+        lo = min(dt for _, dt in self.queries)
+        hi = max([dt for _, dt in self.queries] + [int(r.split()[1]) for r in self.impl if r.startswith('ok')])
+        d0, d1 = lo // NS_DAY - 3, min(hi // NS_DAY + 3, lo // NS_DAY + 800)
+        return [f'regular {tod} {sk} {rp} {d0} {d1}' for tod, sk, rp in self.time_nodes()]
+
     def lines(self) -> list[str]:
         out = [zone_line(self.tz), f'seed {self.seed}']
         out += [f'prod {pid} {prod_sx(sp)}' for pid, sp in self.specs.items()]
+        out += self.regular_lines()
         out += [f'next {pid} {dt}' for pid, dt in self.queries]
         return out
 
@@ -56,6 +83,11 @@ def run_case_impl(case: ProdCase, plan) -> None:
                 return 'err undefined'
             case.anchor.setdefault(pid, dt)
             r = impl.next(pid, dt)
+            if r == 'err DIVERGED' and not impl.risky.get(pid):
+                # a bounded but very expensive search (e.g. an unsatisfiable group filter: up to 99 999 member
+                # queries) was cut off by the watchdog: inconclusive, not compared with the model
+                case.meta['inconclusive'] = case.meta.get('inconclusive', 0) + 1
+                return r
             case.queries.append((pid, dt))
             case.impl.append(r)
             return r
@@ -77,8 +109,10 @@ def replay_case_impl(case: ProdCase) -> None:
 def model_answers(case: ProdCase) -> tuple[dict[int, str], list[str]]:
     blocks = run_model(case.lines())
     nd = len(case.specs)
+    nr = len(case.regular_lines())
     defs = {pid: (blocks[2 + i][0] if blocks[2 + i] else '') for i, pid in enumerate(case.specs)}
-    return defs, [b[0] if b else '' for b in blocks[2 + nd:]]
+    case.regular = [b[0] if b else '' for b in blocks[2 + nd:2 + nd + nr]]
+    return defs, [b[0] if b else '' for b in blocks[2 + nd + nr:]]
 
 
 def chain_plan(refs: list[int], steps: int, boundary: bool = True):
@@ -121,7 +155,7 @@ def make_case(pid: str, seed: int, tier: str) -> ProdCase:
     elif pid == 'C05':
         for i in range(2):
             case.specs[i + 1] = gen_producer(rnd, zc, ref0, rnd.randint(1, 3), filters=0.6, ops=('group',))
-        steps = 6
+        steps = 4
     elif pid == 'C06':
         for i in range(3):
             case.specs[i + 1] = ('time', gen_tod(rnd, zc), rnd.choice(SKIPPED), rnd.choice(REPEATED), None)
@@ -202,6 +236,7 @@ class ProdProp:
 
     def check_case(self, run: Run, case: ProdCase) -> None:
         run.evaluations += len(case.queries)
+        run.stats['inconclusive_watchdog'] = run.stats.get('inconclusive_watchdog', 0) + case.meta.get('inconclusive', 0)
         for (pid, dt), res in zip(case.queries, case.impl):
             run.nontrivial.add((case.tz, prod_sx(case.specs[pid]), dt))
             st = run.stats
@@ -226,6 +261,13 @@ class ProdProp:
                     'queries': [(dt, r) for (_, dt), r in list(zip(case.queries, case.impl))[:4]]})
         mdefs, mres = model_answers(case)
         run.traces_validated += 1
+        for r in getattr(case, 'regular', []):
+            key = 'hyp_TimeRegular_' + ('ok' if r == 'regular ok' else 'fail')
+            run.stats[key] = run.stats.get(key, 0) + 1
+            if r != 'regular ok':
+                run.stats.setdefault('hyp_TimeRegular_fail_zones', [])
+                if case.tz not in run.stats['hyp_TimeRegular_fail_zones']:
+                    run.stats['hyp_TimeRegular_fail_zones'].append(case.tz)
         for pid in case.specs:
             if (case.defs[pid] == 'ok') != (mdefs[pid] == 'ok'):
                 run.findings.append(Finding('correspondence', f'definition of {prod_sx(case.specs[pid])[:150]}: code {case.defs[pid]} / model {mdefs[pid]}',
